@@ -2161,6 +2161,10 @@ class Explorer:
         # ---- split_at: (&x[..n], &x[n..]); its precondition n <= len is an obligation of the panic ledger (STD_PANICS)
         if p in ("std::slice::<impl [T]>::split_at", "std::slice::<impl [T]>::split_at_mut") and len(args) == 2:
             base, n_ = args[0], args[1]
+            if base[0] == "ref" and base[1][0] == "L":
+                bv = self.read_loc(st, base[1], base[2])
+                if bv[0] == "arr":
+                    base = bv          # a local array of known size: its length travels with the halves
             INDEX = "std::slice::index::<impl std::ops::Index<I> for [T]>::index"
             left = SYM(self.cap(("call", INDEX, (base, AGG("std::ops::RangeTo", "RangeTo", (n_,))))))
             right = SYM(self.cap(("call", INDEX, (base, AGG("std::ops::RangeFrom", "RangeFrom", (n_,))))))
